@@ -138,6 +138,8 @@ def run(tier: str, seed: int) -> int:
     # resize of a record that is uninitialised but carries a restored (non-zero) write position
     from .record_persist import run_unready_resize
     run_unready_resize(chk, tier, rng)
+    from .resize_static import run_resize
+    run_resize(chk, rng, tier == "thorough")
     return chk.finish()
 
 
